@@ -100,7 +100,8 @@ AMake(v, o, t, tg, fid) ==
   ELSE Ok([v EXCEPT ![o.p] = NewNode(t, IF t = "sym" THEN 511 ELSE o.m, tg, fid)])
 
 AOp(v, o, hasUpper, fid) ==
-  IF o.op = "rename" THEN Free(v)          \* outside the property; the trace spec does not judge its effect
+  IF o.op \in {"rename", "nprobe"} THEN Free(v)   \* rename: outside the property (effect not judged); nprobe: handle-less
+                                                  \* READ / FSYNC / GETATTR, changes nothing whatever it answers
   ELSE IF ~hasUpper THEN Fail(v, {})
   ELSE IF o.p \notin Paths THEN Fail(v, {})
   ELSE
@@ -133,6 +134,13 @@ AOp(v, o, hasUpper, fid) ==
          IF ~Exists(v, o.p) \/ v[o.p].t = "dir" THEN Fail(v, {})
          ELSE IF v[o.p].t # "file" THEN Free(v)
          ELSE Ok(OnFile(v, o.p, LAMBDA n : [n EXCEPT !.c = Resize(n.c, o.len)]))
+    [] o.op = "fallocate" ->         \* mode 0: the file covers at least off + len blocks afterwards
+         IF ~Exists(v, o.p) \/ v[o.p].t = "dir" THEN Fail(v, {})
+         ELSE IF v[o.p].t # "file" THEN Free(v)
+         ELSE LET ext == OnFile(v, o.p, LAMBDA n : [n EXCEPT !.c = IF Len(n.c) >= o.off + o.len THEN n.c ELSE Resize(n.c, o.off + o.len)])
+              \* handle-less (no_open negotiated): whether a file that was never opened for writing may be
+              \* extended is not determined here; what the lower layers look like afterwards is (LowersFrozen)
+              IN IF Has(o, "noopen") /\ o.noopen THEN Free(ext) ELSE Ok(ext)
     [] o.op = "chmod" ->
          IF ~Exists(v, o.p) THEN Fail(v, {})
          ELSE IF v[o.p].t = "sym" THEN Free(v)
